@@ -361,6 +361,7 @@ type vdialer struct {
 	tEnd     map[int]time.Time // first close of each transport (attempt -> time)
 	onState  func(conn int, s ConnState, err error)
 	maxRead  int
+	unsafe   bool // transports in non-thread-safe mode (C10)
 }
 
 var errVDial = errors.New("verif: injected dial failure")
@@ -434,6 +435,9 @@ func (d *vdialer) DialContext(ctx context.Context) (*BaseClient, error) {
 	c := &vbConn{id: k, b: d.b, typeCount: map[int]int{}, ackCount: map[int]int{}}
 	c.mc = newMemConn(k, d.b.log, c)
 	c.mc.maxRead = d.maxRead
+	if d.unsafe {
+		c.mc.unsafeMode, c.mc.yieldEvery = true, 2
+	}
 	cli := &BaseClient{Transport: c.mc}
 	cli.ConnState = func(s ConnState, err error) {
 		note := s.String()
